@@ -92,7 +92,7 @@ var specC15 = reg(&checkSpec{
 
 var specC16 = reg(&checkSpec{
 	prop: "C16", profiles: []string{"transfer"},
-	deciding: []string{"transfer", "leader-unique", "converge"},
+	deciding: []string{"transfer", "leader-unique", "converge", "tasks-complete"},
 	closing:  true,
 	rule:     "non-trivial: a transfer was accepted (timeout-now written or transfer task pending) while updates, a membership action or a competing election were in flight, or its reply/vote traffic was withheld; distinct by trace hash",
 	nontrivial: func(c *cluster) bool { return c.stats.has("wire-timeoutNow") && (c.stats.has("xfer-err") || c.stats.has("xfer-ok")) },
